@@ -65,7 +65,7 @@ CLAIMED: dict[str, tuple[str, str, str, str]] = {
             TECH),
     "C06": ("DESIGN.md §5 C06",
             "spec/Run.tla models one CLI run (parse, path validation, config loading, lint, render, exit) with "
-            "thirteen classes of usage error and is model-checked exhaustively (ExitRule, NoOutputOnError, "
+            "fourteen classes of usage error and is model-checked exhaustively (ExitRule, NoOutputOnError, "
             "termination); every (fault, input class) case is executed for all 20 linter commands in text, json "
             "and sarif as real processes, including hostile inputs (non-ASCII identifiers, file names with "
             "quotes, backslash, newline and an invalid UTF-8 byte, several identical findings on one line); "
